@@ -58,8 +58,16 @@ def model_check(inst, tier):
             f.write("PROPERTY %s\n" % p)
     ce = os.path.join(wd, "ce.json")
     extra = ["-dumpTrace", "json", ce]
+    env = None
+    if inst.get("cfgs") is not None:
+        # family read from a file: seeded random models beyond the exhaustive bounds
+        module = "MC_PdesyFile"
+        cf = os.path.join(wd, "cfgs.json")
+        with open(cf, "w") as f:
+            json.dump(inst["cfgs"], f)
+        env = {"CFG_FILE": cf}
     try:
-        rc, out = tlc.run_tlc(module, cfgf, wd, workers=inst.get("workers", 16),
+        rc, out = tlc.run_tlc(module, cfgf, wd, env=env, workers=inst.get("workers", 16),
                               timeout=inst.get("timeout", 3000), extra=extra, heap="8g", quickjit=False)
         st = tlc.parse_states(out)
         res = {"family": inst["family"], "tier": tnum, "module": module,
